@@ -466,7 +466,8 @@ STRICT_NOTHING = {'not-osc', 'addr-unterminated', 'bundle-short',
                   'elem-size-negative', 'elem-size-oversized',
                   'blob-size-negative'}
 
-SUPPORTED_TAGS = set('ifsbdtTF[]')     # what the library documents to parse
+SUPPORTED_TAGS = set('ifsbdtmrTFN[]')   # what the library documents to parse (_osclib.py:
+                                        # OscMessage._parse_datagram, OscMessageBuilder.ARG_TYPE_*)
 
 
 def _i32(n):
